@@ -14,6 +14,7 @@ pub mod flacfile;
 pub mod io;
 pub mod meta;
 pub mod readers;
+pub mod streamsync;
 pub mod writers;
 
 // ---------------------------------------------------------------------------------
